@@ -17,7 +17,7 @@ from ..selftest import Seed
 from . import c18
 
 META = {
-    "technique": "error-discipline check over the resolved call graph, path/codec table agreement between writer and reader, who-may-delete, guard dominance and pairing of the byte accounting",
+    "technique": "error-discipline check over the resolved call graph, path/codec table agreement between writer and reader, who-may-delete, guard dominance and pairing of the byte accounting, handler-breadth rule for the absent decision, freshness of the frame handed out by the table facade",
     "level_text": "Static proof over all facade methods and cache routines of structural necessary conditions of 'persistent dictionary': missing key => undefined on every facade, one path expression shared by writer, loader and existence probe, an injective key->path mapping, matching serialiser pairs, no file removal anywhere in the store, accounting that adds exactly what it records under a capacity check. Holds for all operation histories and limits; the map semantics over histories is not decided.",
     "level_note": "decides the structural clause below from source; does not decide the behaviour. Trusted: pickle.dump/load and DataFrame.to_pickle/read_pickle are inverse pairs; os.path.join is deterministic; FileNotFoundError is what get_file raises for a missing file (checked).",
     "explanation": (
@@ -25,7 +25,8 @@ META = {
         "get that reaches it (resolved call graph) must catch it and return the undefined marker; the path expressions of the write routine, the load "
         "routine and the existence probe are compared; the key->path function must be the identity or a listed injective encoding; each facade's "
         "set/get serialisers must be a serialize_X/deserialize_X pair whose bodies use the matching library pair; no file-system deletion/rename in "
-        "klongpy/db; the accounting rules of C18-R4/R5 (pairing, capacity check, refusal before mutation) are evaluated here as well."),
+        "klongpy/db; the accounting rules of C18-R4/R5 (pairing, capacity check, refusal before mutation) are evaluated here as well."
+        " R6: handlers around cache reads that do not re-raise catch FileNotFoundError only; the table returned by the table facade's get owns a copy of the cached frame."),
     "assumptions": ["file names are used as given by the key->path function (no normalisation by the OS beyond POSIX path semantics)"],
 }
 
